@@ -6,6 +6,7 @@ import (
 
 	"golang.org/x/tools/go/ssa"
 
+	"saoverif/internal/cfgx"
 	"saoverif/internal/core"
 	"saoverif/internal/guard"
 )
@@ -21,6 +22,8 @@ func checkC20(r *core.Run) {
 	r.Rule("RemoveVstorage: after the decrement the threshold is re-tested on every success path and a super node below it is demoted and persisted; Reset: Role := normal before re-evaluation")
 	r.Rule("no-stale-check: after CheckNodeShare(&node,..) no store to node.Validator/Status before the record is persisted")
 	r.Rule("D3: no process-resident state (shared with C01/C03)")
+	r.Rule("G-rescan: verifySuperStorageNodes has no exit before its loop over all delegations of the validator")
+	ruleScanTotal(r)
 	r.Rule("G-share-ratio: CheckDelegationShare succeeds only if (delegation.Shares / (validator.DelegatorShares - sharesToSub)) >= ShareThreshold: numerator and denominator are both in SHARES of that validator (sharesToSub, the pending reduction passed by the unbond hooks, is an amount of shares)")
 	r.Assume(aDeps)
 	r.Assume(aCG)
@@ -350,4 +353,37 @@ func ruleNoStaleCheck(r *core.Run) {
 		}
 	}
 	r.Floor("checknodeshare_sites", n, 2)
+}
+
+// ruleScanTotal (G-rescan): every call of verifySuperStorageNodes walks all
+// delegations of the validator: no return is reachable without entering the loop
+// over GetValidatorDelegations. Any change of the validator's total shares — by a
+// delegator that is not itself a storage node, or by the operator — changes every
+// node's ratio, so skipping the scan for "uninteresting" delegators leaves
+// diluted super nodes in place.
+func ruleScanTotal(r *core.Run) {
+	const id = "G-rescan"
+	fnName := "node/keeper.Hooks.verifySuperStorageNodes"
+	fn := r.Func(id, fnName)
+	if fn == nil {
+		return
+	}
+	var hdr *ssa.BasicBlock
+	for _, l := range cfgx.Loops(fn) {
+		over := rangedOver(r, fn, l)
+		if strings.Contains(over, "GetValidatorDelegations(") {
+			hdr = l.Header
+		}
+	}
+	key := core.Key(id, fnName, "every return lies after the scan of the validator's delegations")
+	if hdr == nil {
+		r.Violate(id, key, r.P.FuncPos(fn), "verifySuperStorageNodes no longer ranges over the validator's delegations")
+		return
+	}
+	bad := forwardAvoid(fn.Blocks[0], map[*ssa.BasicBlock]bool{hdr: true}, nil, isReturnBlock)
+	if bad == nil {
+		r.Discharge(id, key, r.P.FuncPos(fn), "no return is reachable without entering the loop over GetValidatorDelegations(valAddr)")
+	} else {
+		r.Violate(id, key, r.P.FuncPos(fn), "verifySuperStorageNodes can return before scanning the validator's delegations: a delegation change that dilutes the storage nodes' share (by a delegator that is not a node, or by the operator) then re-evaluates nobody, and a super node below the share threshold keeps its role", pathDesc(r, bad))
+	}
 }
